@@ -1,6 +1,6 @@
 """Which functions, lemmas and bounded stand-ins decide which property (DESIGN.md sections 0 and 5)."""
 from . import abnf, core, recv, app, url, http, net
-from harness import appsim
+from harness import appsim, native_c10, native_c11, native_c18, native_c19, native_c20
 
 GLOBAL_TRUSTED = [
     "pyvc (AST -> verification conditions) and its encoding of Python semantics (DESIGN.md 2.2, 2.14)",
@@ -10,7 +10,9 @@ GLOBAL_TRUSTED = [
 ]
 
 LEMMAS = {}
-NEVER_RETURNS = set()  # functions whose contract cases legitimately have no normal exit
+# contract cases that legitimately have no normal exit (e.g. "no socket": always raises)
+NEVER_RETURNS = {"websocket._socket:recv/none", "websocket._socket:send/bytes-none", "websocket._socket:send/str-none",
+                 "websocket._http:connect/proxy-socks,resolve"}
 MODULES = [abnf, recv, core, url, app, http, net]
 COST = {}
 
@@ -25,6 +27,9 @@ A = "websocket._abnf:"
 U = "websocket._utils:"
 K = "websocket._core:"
 SK = "websocket._socket:"
+HSK = "websocket._handshake:"
+HK = "websocket._http:"
+U_ = "websocket._url:"
 PA = "websocket._app:"
 D_ = "websocket._dispatcher:"
 RFN = "WebSocketApp.run_forever.<locals>."
@@ -130,6 +135,66 @@ PROPS = {
                       "S3 a frame that started to arrive arrives completely"],
         assumptions=["timing lemmas are proved over the exact predicate of check() (its contract), not over thread interleavings"],
         not_decided=["interleavings of the ping thread with the reading loop; real scheduling latency"]),
+    "C09": dict(
+        functions=[HSK + "_validate", HSK + "_get_resp_headers", HSK + "handshake", HK + "read_headers", K + "WebSocket.connect", SK + "recv_line"],
+        lemmas=[], bounded=[],
+        trusted_base=[T_TRANSPORT, "hashlib.sha1 / base64 / hmac.compare_digest are uninterpreted functions (compare_digest = equality)",
+                      "token lists of Upgrade / Connection are abstracted by the predicate has_token (comma separated, trimmed, case-folded tokens)",
+                      "contract of _http.connect (transport set-up) as verified under C18/C11/C19"],
+        assumptions=["the request head is accepted by the transport in one write (it is far smaller than a socket buffer)",
+                     "create_connection only constructs the object and calls connect(); it returns through connect()'s normal exit"],
+        not_decided=[]),
+    "C10": dict(
+        functions=[HSK + "_get_handshake_headers", HSK + "_create_sec_websocket_key", HSK + "handshake", U_ + "parse_url"],
+        lemmas=[], bounded=[native_c10.bounded],
+        trusted_base=[T_KEYSRC, "z3 string theory for the request lines", "the process-wide cookie jar is abstracted by jar_cookie(host) (its contract: C20)"],
+        assumptions=["option presence is symbolic for host / origin / suppress_origin / connection / cookie, subprotocols of length 0..2, header absent / list / "
+                     "dict / dict with own key; caller strings contain no CR/LF (the syntax of each line is the caller's responsibility then)"],
+        not_decided=["acceptance by an independent server: BOUNDED only (websockets 17 server protocol on a URL x option grid)"]),
+    "C11": dict(
+        functions=[HK + "_ssl_socket", HK + "connect"], lemmas=[], bounded=[native_c11.bounded],
+        trusted_base=["assumed contract of ssl.SSLContext / OpenSSL: a context with verify_mode=CERT_REQUIRED and check_hostname=True rejects untrusted "
+                      "chains and wrong names during wrap_socket, before any application byte", "os.environ / os.path.isfile / isdir are unconstrained"],
+        assumptions=["option-combination coverage of _ssl_socket: all combinations of the verification keys (cert_reqs, check_hostname, ca_certs, "
+                     "ca_cert_path, server_hostname) with the other keys absent; all combinations of the other keys with the verification keys absent; "
+                     "all keys present; a caller-supplied context (the keys act in separate statements of the function)"],
+        not_decided=["rejection of an untrusted or mismatching certificate by OpenSSL itself (assumed; only the configuration handed to it is proved)"]),
+    "C17": dict(
+        functions=[HK + "read_headers", SK + "recv_line", SK + "recv", HSK + "_get_resp_headers", HSK + "_validate", HSK + "handshake", K + "WebSocket.connect",
+                   A + "frame_buffer.recv_strict", A + "frame_buffer.recv_frame", A + "ABNF.validate", K + "WebSocket.recv_data_frame", K + "WebSocket.recv",
+                   PA + "WebSocketApp._get_close_args", PA + RFN + "read", K + "WebSocket.close", U + "validate_utf8", U + "_validate_utf8"],
+        lemmas=[], bounded=[],
+        trusted_base=[T_TRANSPORT, "A-UTF8 (bytes.decode raises exactly on ill-formed input), A-PACK (struct.unpack needs the exact length)"],
+        assumptions=["every partial operation (index, key lookup, int(), decode, unpack, tuple unpacking, attribute of None) is a path fork: the failing side "
+                     "must be unreachable or raise a class the contract allows; the allowed classes are the documented hierarchy plus the transport's own errors",
+                     "every transport read requests at most 16384 bytes (precondition of the transport contract, checked at each call site)",
+                     "progress: decreases clauses of recv_strict, recv_line, read_headers (each iteration consumes at least one byte or raises)"],
+        not_decided=["behaviour under silence (blocking in the transport is the transport's behaviour)",
+                     "termination of recv_data_frame / close()'s wait loop against an endless stream of control frames"]),
+    "C18": dict(
+        functions=[U_ + "parse_url", HK + "_open_socket", HK + "_get_addrinfo_list", HK + "connect"], lemmas=[], bounded=[native_c18.bounded],
+        trusted_base=["assumed contract of urllib.parse.urlparse (hostname / port / path / query per RFC 3986) - the grammar itself is only covered by the "
+                      "bounded URL grid", "assumed contracts of socket.socket / connect / setsockopt / settimeout / getaddrinfo"],
+        assumptions=["'unreachable' is read as ENETUNREACH (the errno the mechanism names); EHOSTUNREACH counts as 'other error'"],
+        not_decided=["behaviour of urlparse on the full URL grammar (bounded differential only)"]),
+    "C19": dict(
+        functions=[U_ + "_is_ip_address", U_ + "_is_subnet_address", U_ + "_is_address_in_network", U_ + "_is_no_proxy_host", U_ + "get_proxy_info",
+                   HK + "_get_addrinfo_list", HK + "_tunnel", HK + "connect", HK + "read_headers"],
+        lemmas=[], bounded=[native_c19.bounded],
+        trusted_base=["assumed contract of socket.inet_aton (predicate inet_ok, value ipv4) and of urlparse / unquote / os.environ / base64",
+                      "str.lstrip('.') and str.replace are uninterpreted with the facts stated in pyvc.engine"],
+        assumptions=["non-canonical CIDR blocks (host bits set) are left unspecified", "the CONNECT request is accepted by the transport in one write"],
+        not_decided=[]),
+    "C20": dict(
+        functions=[HSK + "_get_handshake_headers", HSK + "handshake", HK + "read_headers"], lemmas=[], bounded=[native_c20.bounded],
+        level="other",
+        explanation="Deductively proved (counted under obligations/discharged): the Cookie line of the request is exactly the jar's cookie string for the "
+                    "target host followed by the caller's cookie; each handshake response feeds its Set-Cookie header to the process-wide jar exactly once. "
+                    "The jar itself (SimpleCookieJar.add / get: domain keys, label-boundary matching, latest value winning) depends on "
+                    "http.cookies.SimpleCookie and is covered by a BOUNDED exhaustive enumeration over small alphabets - the quantifier the property itself "
+                    "names - against a reference model written from the statement; it is not counted as proved.",
+        trusted_base=["http.cookies.SimpleCookie parsing (not modelled)"], assumptions=[],
+        not_decided=["SimpleCookieJar.add / get for arbitrary strings (bounded enumeration only)"]),
     "C12": dict(
         functions=[K + "WebSocket.send_frame", K + "WebSocket._send", SK + "send", K + "WebSocket.recv", A + "frame_buffer.recv_frame",
                    K + "WebSocket.recv_data_frame"],
